@@ -310,7 +310,8 @@ def direct_history(cfg, line, a, base):
     return v
 
 # ------------------------------------------------------------------ random long histories with nested values
-RKEYS = ['-', '61', '6162', '62', '6100', 'c3a9', '7a', '41', 'e282ac', '6161', '2f', '7e30', 'f09f9880', '7f', '20']
+RKEYS = ['-', '61', '6162', '62', '6100', 'c3a9', '7a', '41', 'e282ac', '6161', '2f', '7e30', 'f09f9880', '7f', '20',
+         'efbd9e', 'ee8080', 'efbfbd', 'f0908080', 'ed9fbf', '78f0908080', '78ee8080']     # astral vs high-BMP keys: UTF-8 byte order (= str order) differs from UTF-16 order there
 
 def rand_value(rng, depth):
     r = rng.random()
